@@ -527,19 +527,15 @@ func (p *printer) obj(n *Node) {
 				p.write(" ")
 			}
 		}
-		switch it.KS {
-		case "ident":
+		switch {
+		case it.KS == "ident" && !(i == 0 && it.Name == "for"):
 			p.tok(it.Name)
-		case "quoted":
-			if it.KeyE != nil && it.KeyE.K == KTmpl && !(p.st.Parens > 0 && p.chance(1, 3)) {
-				p.template(it.KeyE, false)
-			} else {
-				p.tok("(")
-				p.push(true)
-				p.expr(it.KeyE, 0, false)
-				p.tok(")")
-				p.pop()
-			}
+		case it.KS == "ident":
+			// `{for` introduces a for-expression: the literal name "for" is quoted when it comes first
+			p.template(&Node{K: KTmpl, Parts: []*Part{{K: PLit, S: it.Name}}}, false)
+		case (it.KS == "raw" || it.KS == "quoted") && rawKeyOK(it.KeyE) && !(p.st.Parens > 0 && p.chance(1, 4)):
+			// (p.expr may still add redundant parentheses of its own, and inside them a heredoc)
+			p.expr(it.KeyE, 0, false)
 		default:
 			p.tok("(")
 			p.push(true)
@@ -566,6 +562,20 @@ func (p *printer) obj(n *Node) {
 	}
 	p.tok("}")
 	p.pop()
+}
+
+// rawKeyOK: the key expression can be written without parentheses and still be an
+// expression (not a bare name, which would be a literal key, and not a traversal, which
+// the fork rejects as an ambiguous key).
+func rawKeyOK(n *Node) bool {
+	if n == nil {
+		return false
+	}
+	switch n.K {
+	case KNum, KTmpl, KBin, KUn, KCall:
+		return true
+	}
+	return false
 }
 
 func (p *printer) forExpr(n *Node) {
